@@ -64,7 +64,7 @@ def mt_leg(rep, tier):
                     e["said"] = "exit" if ("exit" in kinds or (isinstance(ret, dict) and ret.get("kind") == "exit")) else "stop"
                 evs.append(e)
             tf = d / f"t-{nt}-{k}.ndjson"
-            vlib.ndjson_write(tf, evs)
+            vlib.ndjson_write(tf, evs, tla=True)
             r = vlib.tlc("TracePatch", str(d / "TracePatch.cfg"), workers=1, env={"TRACE": str(tf)}, timeout=120, heap="2g",
                          name=f"c02mt-{nt}-{k}")
             v = vlib.printed(r.out, "VERDICT")
